@@ -316,8 +316,11 @@ def canon(x, kind, m=None, index=None):
     `m`: the case's injection of instance identifiers into the integers; `index`: the row labels of the start frame
     (a pandas 2-D table inherits them; every other frame must carry the default RangeIndex, anything else is flagged)."""
     def lab(v):
+        # identifiers of the start container go through the case's injection; labels created on the way are positions
         try:
-            return str(lab_int(v, m)) if (m is None or v in m) else "?" + str(v)
+            if m is not None and isinstance(v, str):
+                return str(m[v]) if v in m else "?" + v
+            return str(int(v))
         except Exception:
             return "?" + str(v)
     if kind == "A" or (kind == "T" and isinstance(x, np.ndarray)):
